@@ -276,7 +276,7 @@ fn fixed_case() -> impl Strategy<Value = Case> {
 
 fn generated_case() -> impl Strategy<Value = Case> {
     let intent = || {
-        (prop_oneof![4 => Just(0u8), 8 => Just(1u8), 3 => Just(2u8), 1 => Just(3u8), 1 => Just(4u8), 1 => Just(5u8), 1 => Just(6u8)], any::<[u16; 6]>(), any::<u8>(), any::<u8>(), any::<u8>(), 0u8..4, any::<u16>(), any::<u8>(), any::<bool>(), any::<u8>())
+        (prop_oneof![4 => Just(0u8), 8 => Just(1u8), 3 => Just(2u8), 1 => Just(3u8), 1 => Just(4u8), 1 => Just(5u8), 1 => Just(6u8)], any::<[u16; 12]>(), any::<u8>(), any::<u8>(), any::<u8>(), 0u8..4, any::<u16>(), any::<u8>(), any::<bool>(), any::<u8>())
             .prop_map(|(kind, picks, stop, omit, long, case, mask, one, query, ws)| Intent { kind, picks, stop, omit, long, case, mask, one, query, ws })
     };
     (tree_strategy(), proptest::collection::vec((intent(), proptest::collection::vec(datum(false), 0..4)), 1..5), proptest::collection::vec(mutation(), 0..3), proptest::collection::vec(any_plan(), 0..5)).prop_map(|(tree, units, muts, plans)| {
@@ -346,6 +346,15 @@ fn run(e: &Engine) {
         for t in templates {
             long.push(Case::Fixed { bytes: B(t), plans: vec![] });
         }
+        let rep = |pat: &[u8]| -> Vec<u8> { pat.iter().cycle().take(*n * pat.len()).copied().collect() };
+        for (pre, pat, post) in [(&b"@"[..], &b"1!"[..], &b"1"[..]), (b"@", b"1,", b"1"), (b"@", b"1:", b"1"), (b"", b"1,", b"1"), (b"", b"1:2,", b"3"), (b"@", b"'a',", b"1")] {
+            long.push(Case::List { bytes: B([pre, &rep(pat), post].concat()) });
+            // the same list as a parameter of a message
+            long.push(Case::Fixed { bytes: B([&b":A ("[..], pre, &rep(pat), post, &b")"[..]].concat()), plans: vec![] });
+        }
+        for (pre, pat, post) in [(&b":A "[..], &b"1,"[..], &b"1"[..]), (b"", b":A;", b":A"), (b"", b"*X?;", b"*X?"), (b":B", b":C", b":D"), (b":A ", b"'x',", b"'y'"), (b":A ", b"(1),", b"(2)")] {
+            long.push(Case::Fixed { bytes: B([pre, &rep(pat), post].concat()), plans: vec![] });
+        }
         long.push(Case::List { bytes: B([&b"@"[..], &run(b'1')].concat()) });
         long.push(Case::List { bytes: B([&b"@1"[..], &run(b'!')].concat()) });
         long.push(Case::List { bytes: B(run(b'1')) });
@@ -357,7 +366,7 @@ fn run(e: &Engine) {
     e.proptest("raw-bytes", e.tier.pick(150_000, 5_000_000), raw_case, check);
     // every byte prefix of generated messages (truncated strings, blocks, headers ...)
     let n_msgs = e.tier.pick(3_000usize, 60_000);
-    let msgs: Vec<Vec<u8>> = crate::engine::sample_strategy(&fixed_message(any::<bool>().boxed(), 4, 4, true, true), crate::engine::seed_bytes(e.seed, "C01", "prefix-pool", 0), n_msgs).into_iter().map(|m| m.render().bytes).collect();
+    let msgs: Vec<Vec<u8>> = crate::engine::sample_strategy(&fixed_message(any::<bool>().boxed(), 4, 4, true, true), crate::engine::seed_bytes(e.seed, "C01", "prefix-pool", 0), n_msgs).into_iter().map(|m| m.render().bytes).filter(|b| b.len() <= 400).collect();
     let msgs_ref = &msgs;
     e.enumerate::<Case, _, _>(
         "every-prefix-of-generated-messages",
